@@ -6,10 +6,10 @@ from vlib import c01lib, common
 GO = dict(module="core", pkg=c01lib.PKG, pkgname=c01lib.PKGNAME,
           files=dict(c01lib.ENV_FILES, **{"zz_verif_c01_test.go": "c01/c01_test.go"}), run="TestVerifC01")
 PARAMS_NAME = c01lib.PARAMS_NAME
-HEADER = c01lib.HEADER + "From Hy Require Import corr.C01K_Corr.\n"   # check = C01_Corr.check && the product check
-CORR_NAME = "C01K_Corr"
+HEADER = c01lib.HEADER + "From Hy Require Import corr.C01K_Corr corr.C01L_Corr.\n"   # check = C01_Corr.check && the product check && the lifecycle LTS accepts
+CORR_NAME = "C01L_Corr"
 PER_SHARD = 6
-EXTRA_TARGETS = ["corr/C01_Corr.vo", "corr/C01K_Corr.vo"]
+EXTRA_TARGETS = ["corr/C01_Corr.vo", "corr/C01K_Corr.vo", "corr/C01L_Corr.vo"]
 RULE = ("seeded generator of histories on 1-3 raw QUIC connections to one real server.NewServer (loopback): auth requests with "
         "accepted / rejected credentials (CC-RX values incl. overflow and syntax errors), near-miss HTTP/3 requests, raw bidirectional "
         "streams opening with 0x401 + TCPRequest (and other / unreadable frame types), UDPMessage datagrams, repeated auth, close; "
@@ -24,6 +24,19 @@ RULE = ("seeded generator of histories on 1-3 raw QUIC connections to one real s
         "the same connection by rejected credentials, the same credential again, other accepted credentials, concurrent bursts of auth "
         "requests, proxy streams / datagrams and close (directed templates D1-D3 per id class + random histories); online / connect "
         "events are attributed to connections by their neighbours in the log (never by the id) and counted per connection. "
+        "Connection LIFECYCLES on one server (connections end, new ones are accepted afterwards; a connection index is never reused; "
+        "`open` steps dial a connection in the middle of a history, optionally from the local socket of a connection that has ended): "
+        "4-6 rounds of connect / accept / proxy / disconnect followed by a fresh connection that never authenticates, is rejected, or "
+        "presents the credential its predecessor was accepted with, and proxies at once (streams, datagrams); waves of 3 connections "
+        "accepted side by side, all ended, 3 new ones unauthenticated, one of the next wave accepted; predecessors that were never "
+        "accepted; 8 connections driven concurrently; random lifecycles of 6-10 connections with at most 3 alive; about half of these "
+        "histories run alone in the process with GOMAXPROCS(1) and the collector off (runtime caches such as sync.Pool behave "
+        "reproducibly; the harness waits until handleClient of every ended connection has returned), the others under the default "
+        "scheduling next to five other histories. Near-miss authentication requests carrying ACCEPTABLE credentials: POST /auth with "
+        "22 authorities (hysteria:443, :8443, :0, empty port, upper / mixed case, trailing dot, brackets, sub / super-strings, "
+        "escapes), 14 paths, 9 methods, each followed by proxy attempts and, on some connections, by the real request; the verdict "
+        "demands that every Authenticate call belongs to an in-flight POST hysteria /auth request with the same credentials on that "
+        "connection, that no other request is answered 233 and that it gets the masquerade handler's status. "
         "After every stream / datagram an ordering barrier (HTTP request on the same connection). "
         "Non-trivial = the history contains a proxy attempt (0x401 stream or datagram) on a connection that has not been accepted "
         "AND an accepted connection that reaches the outbound. Distinct = distinct JSON history.")
@@ -122,6 +135,17 @@ def act(rng, c, n, kind):
     if kind.startswith("cred:"):         # "cred:<credential>[:<ccrx>]"
         p = kind.split(":")
         return {"c": c, "a": "auth", "req": shared_req(rng, p[1], p[2] if len(p) > 2 else None)}
+    if kind == "open":                   # the connection is dialled at this point of the history (not at its start)
+        return {"c": c, "a": "open"}
+    if kind.startswith("open:from:"):    # ... from the local socket of a connection the history has closed before
+        return {"c": c, "a": "open", "from": int(kind.split(":")[2])}
+    if kind.startswith("host:") or kind.startswith("path:") or kind.startswith("meth:"):
+        # "the authentication request, except for ...": accepted credentials on a request that is NOT POST hysteria /auth
+        r = auth_req(rng, c, n, True)
+        r["t"] = "/auth"
+        r["hasa"], r["hasrx"], r["ccrx"] = True, True, rng.choice(["100000", "65536", "0"])
+        r[{"host": "h", "path": "t", "meth": "m"}[kind[:4]]] = kind[5:]
+        return {"c": c, "a": "req", "req": r}
     if kind.startswith("revoke:") or kind.startswith("grant:"):
         a, cred = kind.split(":")
         return {"c": c, "a": a, "cred": cred}
@@ -240,6 +264,124 @@ def id_templates(rng, rep):
     return out
 
 
+# ---- connection lifecycles: connections END and new ones are accepted afterwards by the same server.  A connection's
+# index is never reused (a new connection = a new index); a connection that has an `open` step is dialled at that step.
+def cycle_templates(rng, rep):
+    """connect / authenticate / disconnect cycles, many rounds on one server: the later connection never authenticates (or
+    is rejected, or presents the credential an earlier connection was accepted with) and sends proxy streams / datagrams
+    at once.  gmp1 histories run alone in the process with GOMAXPROCS(1) and the collector off."""
+    out = []
+    cfg = lambda: dict(rand_cfg(rng), udp=True)
+
+    def h(nconn, par, kinds, pol=None, gmp1=False):
+        x = history(rng, cfg(), nconn, par, kinds, pol)
+        x["gmp1"] = gmp1
+        x["life"] = True
+        return x
+
+    # L1 rounds of: A opens, is accepted, proxies, ends; B opens and proxies without a word / after a rejected request
+    for gmp1 in (True, False):
+        R = rng.randint(4, 6)
+        ks = []
+        for r in range(R):
+            a, b = 2 * r, 2 * r + 1
+            ks += [(a, "open"), (a, "good")] + ([(a, "tcp")] if r % 2 == 0 else [(a, "udp")]) + [(a, "close")]
+            ks += [(b, "open"), (b, "tcp"), (b, "udp")] + ([(b, "bad"), (b, "tcp")] if r % 3 != 2 else [(b, "miss"), (b, "udp")])
+            ks += [(b, "close")] if r % 2 == 1 else []
+        out.append(h(2 * R, False, ks, gmp1=gmp1))
+    # L2 the same peer again: B is dialled from the local socket of the connection that has just ended
+    R = rng.randint(3, 5)
+    ks = []
+    for r in range(R):
+        a, b = 2 * r, 2 * r + 1
+        ks += [(a, "open" if r == 0 else "open:from:%d" % (b - 2)), (a, "good"), (a, "tcp"), (a, "close"),
+               (b, "open:from:%d" % a), (b, "tcp"), (b, "bad"), (b, "udp"), (b, "tcp"), (b, "close")]
+    out.append(h(2 * R, False, ks, gmp1=rep % 2 == 0))
+    # L3 waves: K connections accepted side by side, all end; K new ones proxy unauthenticated; one of the next wave is accepted
+    # (its own Authenticate call, served), its neighbours are not; a last wave after everybody has gone
+    for gmp1 in (True, False):
+        K = 3
+        w = lambda i: list(range(i * K, (i + 1) * K))
+        ks = [(c, "good") for c in w(0)] + [(c, "tcp") for c in w(0)] + [(c, "close") for c in w(0)]
+        ks += [(c, "open") for c in w(1)] + [(c, k) for k in ("tcp", "udp", "bad", "tcp") for c in w(1)] + [(c, "close") for c in w(1)[:2]]
+        ks += [(c, "open") for c in w(2)] + [(w(2)[0], "tcp"), (w(2)[1], "good"), (w(2)[0], "tcp"), (w(2)[1], "tcp"), (w(2)[2], "udp"), (w(2)[2], "tcp")]
+        ks += [(c, "close") for c in w(2)] + [(c, "open") for c in w(3)] + [(c, k) for k in ("tcp", "udp") for c in w(3)]
+        out.append(h(4 * K, False, ks, gmp1=gmp1))
+    # L4 the credential an ended connection was accepted with, presented by the new connection, for which the authenticator rejects it
+    x = "shared-life%d" % rep
+    R = 4
+    ks = []
+    for r in range(R):
+        a, b = 2 * r, 2 * r + 1
+        ks += [(a, "open"), (a, "cred:" + x + ":65536"), (a, "tcp"), (a, "close"), (b, "open"), (b, "tcp"), (b, "cred:" + x + ":65536"), (b, "tcp"), (b, "udp")]
+    out.append(h(2 * R, False, ks, {x: {"conns": [2 * r for r in range(R)]}}, gmp1=rep % 2 == 1))
+    # L5 the predecessor was never accepted: the new connection can authenticate (consulting the authenticator) and is served; its successor is not
+    ks = []
+    for r in range(3):
+        a, b, c = 3 * r, 3 * r + 1, 3 * r + 2
+        ks += [(a, "open"), (a, "bad"), (a, "tcp"), (a, "close"), (b, "open"), (b, "tcp"), (b, "good"), (b, "tcp"), (b, "udp"), (b, "close"),
+               (c, "open"), (c, "udp"), (c, "tcp"), (c, "bad"), (c, "close")]
+    out.append(h(9, False, ks, gmp1=True))
+    # L6 default scheduling, connections driven concurrently: the even ones are accepted and end, the odd ones never authenticate
+    ks = []
+    for c in range(8):
+        ks += [(c, "open"), (c, "good"), (c, "tcp"), (c, "close")] if c % 2 == 0 else [(c, "open"), (c, "tcp"), (c, "udp"), (c, "bad"), (c, "tcp"), (c, "close")]
+    out.append(h(8, True, ks))
+    # random lifecycles: at most 3 connections alive at a time, up to 10 in all; every second connection is never given accepted credentials
+    LK = ["good"] * 6 + ["bad"] * 4 + ["miss"] * 2 + ["tcp"] * 10 + ["udp"] * 6
+    for i in range(4):
+        nconn = rng.randint(6, 10)
+        nxt, alive, ks = 0, [], []
+        while nxt < nconn or alive:
+            r = rng.random()
+            if nxt < nconn and (not alive or (len(alive) < 3 and r < 0.25)):
+                ks.append((nxt, "open"))
+                ks.append((nxt, "tcp" if nxt % 2 else rng.choice(["good", "tcp", "bad"])))
+                alive.append(nxt)
+                nxt += 1
+            elif r < 0.5 or len(ks) > 60:
+                c = alive.pop(rng.randrange(len(alive)))
+                ks.append((c, "close"))
+            else:
+                c = rng.choice(alive)
+                k = rng.choice(LK)
+                ks.append((c, "bad" if k == "good" and c % 2 else k))
+        out.append(h(nconn, False, ks, gmp1=i % 2 == 0))
+    return out
+
+
+# requests that are the authentication request EXCEPT for the authority / the path / the method, carrying credentials the
+# authenticator would accept: served by the masquerade handler alone, the authenticator is not consulted, the
+# connection stays shut.  (the authority as the client puts it into :authority; the server's r.Host.  Authorities with
+# userinfo - user@hysteria - are refused by the http3 client before anything is sent: not in the list.)
+NEAR_HOSTS = ["hysteria:443", "hysteria:8443", "hysteria:0", "hysteria:", "hysteria:80", "HYSTERIA", "Hysteria", "hYSTERIA:443", "hysteria.",
+              "hysteria.:443", "[hysteria]", "[hysteria]:443", "hysteria.example.com",
+              "www.hysteria", "hysteri", "hysteriaa", "hysteria%2e", "hysteria:443:443", "xn--hysteria", "hysteria-", "127.0.0.1", "localhost"]
+NEAR_PATHS = ["/auth/", "//auth", "/Auth", "/AUTH", "/auth/.", "/./auth", "/auth/../auth", "/auth;x", "/auth%2f", "/auth%20", "/authh", "/aut", "/", "/x/../auth"]
+NEAR_METHODS = ["GET", "PUT", "HEAD", "post", "Post", "PATCH", "DELETE", "OPTIONS", "POSTT"]
+
+
+def near_templates(rng, rep):
+    out = []
+    hosts = NEAR_HOSTS[:]
+    rng.shuffle(hosts)
+    forms = ["host:" + x for x in hosts] + ["path:" + x for x in rng.sample(NEAR_PATHS, 6)] + ["meth:" + x for x in rng.sample(NEAR_METHODS, 4)]
+    # N1 one connection per form: the near-miss request with accepted credentials, then proxy attempts; then the real request, served
+    per = 6
+    for i in range(0, len(forms), per):
+        grp = forms[i:i + per]
+        ks = []
+        for c, f in enumerate(grp):
+            ks += [(c, "open"), (c, f), (c, "tcp"), (c, "udp")]
+            if c % 3 == 0:
+                ks += [(c, f), (c, "good"), (c, "tcp"), (c, f)]
+            ks += [(c, "close")] if c % 2 == 0 else []
+        x = history(rng, dict(rand_cfg(rng), udp=True, masq=rng.choice([0, 1, 2])), len(grp), False, ks)
+        x["life"] = True
+        out.append(x)
+    return out
+
+
 def gen(rng, tier):
     scale = 1 if tier == "quick" else 15
     cases = []
@@ -289,6 +431,12 @@ def gen(rng, tier):
         kinds += [(c, "tcp") for c in range(nconn)]
         h = history(rng2, rand_cfg(rng2), nconn, rng2.random() < 0.4, kinds, {x: {} for x in creds})
         cases.append(apply_ids(rng2, h, ID_CLASSES[i % len(ID_CLASSES)] if i % 8 < 6 else "empty", keep_default=0.3 if i % 2 else 0.0))
+    # (appended last again, generators of their own) connection lifecycles and near-miss authorities
+    rng3 = random.Random(rng2.getrandbits(64))
+    rng4 = random.Random(rng3.getrandbits(64))
+    for rep in range(scale):
+        cases += cycle_templates(rng3, rep)
+        cases += near_templates(rng4, rep)
     return cases
 
 
@@ -297,12 +445,15 @@ def to_coq(c, o):
         # concurrent requests on one connection: the per-connection order of the log is not the order of the
         # model's atomic sections; these histories are judged by the harness verdict (incl. mutual exclusion)
         return None
-    return c01lib.hist_term(c["cfg"], c["nconn"], o["log"])
+    return c01lib.hist_term(c["cfg"], c["nconn"], o["log"], life=True)
 
 
 def klass(c, o):
     if any(a["a"] == "burst" for a in c["acts"]):
         return "concurrent-auth-burst(go verdict only)" + ("/ids=" + c["idclass"] if c.get("idclass") else "")
+    if c.get("life"):
+        return "lifecycle/conns=%s/%s/%s" % ("4-6" if c["nconn"] <= 6 else "7-9" if c["nconn"] <= 9 else "10+",
+                                             "concurrent" if c["par"] else "sequential", "gomaxprocs1" if c.get("gmp1") else "default-scheduling")
     return "conns=%d/%s/masq=%d/%s%s" % (c["nconn"], "concurrent" if c["par"] else "sequential", c["cfg"]["masq"],
                                         "udp" if c["cfg"]["udp"] else "noudp", "/ids=" + c["idclass"] if c.get("idclass") else "")
 
@@ -350,7 +501,13 @@ LEVEL_TEXT = ("Machine-checked Coq theorems over a labelled-transition-system mo
               "(ServeHTTP, ProxyStreamHijacker, handleClient): for every action sequence on any number of connections, every outbound "
               "TCP/UDP call and every relayed payload for a connection is preceded by an accepting authenticator verdict on that same "
               "connection; a step on one connection leaves every other connection's state unchanged; once authenticated nothing clears "
-              "the flag and the authenticator is not consulted again; online/offline events are paired. Tied to /repo on every run by "
+              "the flag and the authenticator is not consulted again; online/offline events are paired. Lifecycle layer (accept of a "
+              "new connection with a never-used id and a zero handler, on a server that has served and seen the end of any number of "
+              "connections): refines the base LTS; an id is accepted at most once; a new connection starts unauthenticated with no "
+              "proxy step enabled and needs an accepting verdict of its own, taken after its accept, before any outbound call; a "
+              "connection's handler and everything observable of it are a function of its own history (two runs that differ only in "
+              "what other connections did agree on it); only the exact POST hysteria /auth request consults the authenticator. "
+              "Tied to /repo on every run by "
               "regenerated constants and by replaying boundary logs of a real server (real QUIC/HTTP3 clients, recording fakes) through "
               "the model inside Coq (vm_compute). The abstraction of the TCP handler / UDP session manager is discharged by composition: the product of the "
               "C01 control LTS with the C06 handler LTS (per accepted stream) and the C07 session-manager LTS is proved to refine the abstract LTS and to "
